@@ -79,13 +79,36 @@ impl HeaderValue {
     pub fn to_str(&self) -> (r: Result<&str, ToStrError>)
         ensures (r is Ok) == hv_is_text(*self), r is Ok ==> r->Ok_0@ == hv_view(*self) { unimplemented!() }
 }
-/// the media type of a Content-Type header text: everything before the first ';', trailing whitespace trimmed,
-/// lower-cased (W1: the two string statements of http_request_load_body, as uninterpreted functions)
-pub uninterp spec fn media_type(ct: Seq<char>) -> Seq<char>;
+/// std string functions used by the media-type trimming (W1), as uninterpreted functions of the text
+pub uninterp spec fn first_index_of(s: Seq<char>, c: char) -> Option<usize>;
+pub uninterp spec fn last_index_of(s: Seq<char>, c: char) -> Option<usize>;
+pub uninterp spec fn byte_len(s: Seq<char>) -> usize;
+pub uninterp spec fn prefix_to(s: Seq<char>, end: usize) -> Seq<char>;
+pub uninterp spec fn trim_end_of(s: Seq<char>) -> Seq<char>;
+pub uninterp spec fn lower_of(s: Seq<char>) -> Seq<char>;
+pub trait StrFns {
+    fn find_char(&self, c: char) -> Option<usize>;
+    fn rfind_char(&self, c: char) -> Option<usize>;
+    fn blen(&self) -> usize;
+    fn trim_end_(&self) -> &str;
+    fn to_lowercase_(&self) -> String;
+}
+impl StrFns for str {
+    #[verifier::external_body] fn find_char(&self, c: char) -> (r: Option<usize>) ensures r == first_index_of(self@, c) { unimplemented!() }
+    #[verifier::external_body] fn rfind_char(&self, c: char) -> (r: Option<usize>) ensures r == last_index_of(self@, c) { unimplemented!() }
+    #[verifier::external_body] fn blen(&self) -> (r: usize) ensures r == byte_len(self@) { unimplemented!() }
+    #[verifier::external_body] fn trim_end_(&self) -> (r: &str) ensures r@ == trim_end_of(self@) { unimplemented!() }
+    #[verifier::external_body] fn to_lowercase_(&self) -> (r: String) ensures r@ == lower_of(self@) { unimplemented!() }
+}
+/// `&s[..end]`
 #[verifier::external_body]
-pub fn mime_end(content_type: &str) -> (r: usize) { unimplemented!() }
-#[verifier::external_body]
-pub fn mime_of(content_type: &str, end: usize) -> (r: String) ensures r@ == media_type(content_type@) { unimplemented!() }
+pub fn str_prefix(s: &str, end: usize) -> (r: &str) ensures r@ == prefix_to(s@, end) { unimplemented!() }
+/// RFC 7231 3.1.1.1: the media type of a Content-Type header text is what precedes the FIRST ';' (all of it if there is
+/// none), without trailing whitespace, lower-cased
+pub open spec fn media_type(ct: Seq<char>) -> Seq<char> {
+    let end = match first_index_of(ct, ';') { Some(i) => i, None => byte_len(ct) };
+    lower_of(trim_end_of(prefix_to(ct, end)))
+}
 /// ApiEndpointBodyContentType::from_mime_type: a `match` on four constant strings (const patterns are outside
 /// Verus's pattern language): which of the four kinds a media type names, if any
 pub uninterp spec fn kind_of_mime(m: Seq<char>) -> Option<ApiEndpointBodyContentType>;
